@@ -26,7 +26,7 @@ CHECKS = {
          "Exploration: seeded random schedules run under virtual time so that return instants are exact; up to three consecutive Wait calls per set; sets built with Add duplicates, Clear and Merge; all three settle regimes and cancellation before/after the first close; plus real-time runs under -race in which 2-4 goroutines call Wait on one set while others add, close and probe (every channel returned at most once, only added and closed ones, membership afterwards).",
          "Event times are kept distinct so the model has no ties; real-timer granularity is out of scope (virtual time); in the concurrent part a closed member not returned within 30 s of wall-clock time is reported inconclusive, not as a violation.", "5/C20"),
  "C01": ("transcript monitor: retained snapshots (and retained result sequences) are re-queried after every later transaction/abort/collection window and compared with the transcript recorded at creation and with the model of that snapshot; virtual time for graveyard collection; race detector with concurrent snapshot readers, a writer and a table registrar",
-         "Exploration: seeded random histories under testing/synctest with the DB started; up to 16 retained snapshots per history taken between transactions, while a write transaction is pending and from Commit; LPM-heavy variant with several objects per prefix; table registrations running into commits; plus a -race part where 6 readers rebuild the model from each snapshot's primary index, check every index against it and keep re-verifying retained transcripts (and the set of tables) while a writer history and a registrar run.",
+         "Exploration: seeded random histories under testing/synctest with the DB started; up to 16 retained snapshots per history taken between transactions (transcripts include Initialized/PendingInitializers; transactions register and complete initializers), while a write transaction is pending and from Commit; LPM-heavy variant with several objects per prefix; table registrations running into commits; plus a -race part where 6 readers rebuild the model from each snapshot's primary index, check every index against it and keep re-verifying retained transcripts (and the set of tables) while a writer history and a registrar run.",
          "Trusts the reference model (harness/dbsim) and the fixed probe battery; frozenness is decided by transcript equality on a fixed probe set per snapshot, not on all possible queries.", "5/C01"),
  "C03": ("reference-model monitor (keyed map with learned revisions) over return values, error kinds and in-transaction reads of random write histories; race/checkptr slice",
          "Exploration: seeded random histories of all RWTable write operations with guards drawn from current/stale/foreign/future revisions, writes on tables not held and through finished handles, commits and aborts; every return value and the query battery (inside the transaction, after commit, after abort) is compared with the model; variants with wide fan-out keys (sweeps through every radix node size), long and deeply nested keys, and with change iterators created, read and closed between the operations (graveyard maintenance by Insert/Delete).",
@@ -41,16 +41,16 @@ CHECKS = {
          "Exploration: seeded random histories (sequential) plus histories with change iterators, Close and graveyard collection commits under virtual time, plus a -race part with one writer per table, revision samplers, iterator churn, the collector and a goroutine registering tables (revision constant within a snapshot, non-decreasing across snapshots and commits, never below the last committed one).",
          "Revisions are required to be strictly increasing, not +1.", "5/C09"),
  "C05": ("hook-point pause/probe controller (fault enumeration of interleavings) + race-detector stress with delay injection, table-holder and lock-order monitors, sequence-counter conservation and porcupine strict-serializability check of recorded histories",
-         "Fault enumeration: writer A is paused at each of 9 hook points (commit and abort variants) while a same-table writer, a disjoint-table writer or NewTable runs; plus exploration by concurrent histories under -race with delays injected at the hook points, every history checked by porcupine against a counter-vector model.",
+         "Fault enumeration: writer A is paused at each of 9 hook points (commit and abort variants) while a same-table writer, a disjoint-table writer or NewTable runs; plus 4 probes of write transactions with an empty table set; plus exploration by concurrent histories under -race with delays injected at the hook points, every history checked by porcupine against a counter-vector model, and by full-speed disjoint writers (32 tables, 320 000 back-to-back commits per run, registrar and empty-set committer running) each checking that it starts from what it committed last.",
          "Windows without a hook point are reached only by the stress part; the 'B must not be granted' probe waits 1.5 ms (reaching the lock is definite, not reaching it just ends the probe); porcupine timeouts are inconclusive.", "5/C05"),
  "C10": ("lock-order monitor (lockdep style) on every table-lock acquisition + hook-point independence probes + race-detector stress with progress watchdog and hook-derived wait-for snapshot",
-         "Fault enumeration: with a writer paused at each of 9 hook points, readers, disjoint committers, iterator create/close and duplicate/unordered table sets must complete (committers may queue at commit.rootLocked); exploration: 2-32 goroutines over 2-8 tables with iterators, 1 ms collection and table registration under -race; strictly increasing lock sequence numbers are asserted on every acquisition, which catches ordering/de-duplication bugs on every execution rather than only when a deadlock happens.",
+         "Fault enumeration: with a writer paused at each of 9 hook points, readers, disjoint committers, iterator create/close and duplicate/unordered table sets must complete (committers may queue at commit.rootLocked); exploration: 2-32 goroutines over 2-8 tables with iterators, 1 ms collection and table registration under -race; a WriteTxn refused for an unregistered table and the library's db/insert and db/delete script commands on every exit path must leave all tables lockable; strictly increasing lock sequence numbers are asserted on every acquisition, which catches ordering/de-duplication bugs on every execution rather than only when a deadlock happens.",
          "A watchdog firing without wait-for evidence is reported inconclusive; bounded progress = the fixed operation count completes.", "5/C10"),
  "C02": ("hook-point pause/probe controller: snapshots taken by a second goroutine while the writer is paused at every step inside Commit/Abort (all-or-none + conserved sum); abort-vs-never-ran model comparison over random histories; race-detector stress with conserved sums, per-tag all-or-none and porcupine",
-         "Fault enumeration over the 10 pause points of WriteTxn/Commit/Abort with 2-4 table transactions, plus exploration: aborted transactions of every operation kind compared with the model in which they never ran (battery on every index, revisions, retained watch channels, retained snapshots, behaviour of later transactions), plus concurrent transfer workloads under -race whose every snapshot must show the conserved total and all-or-none of each transaction's rows.",
+         "Fault enumeration over the 10 pause points of WriteTxn/Commit/Abort with 2-4 table transactions, plus exploration: aborted transactions of every operation kind (incl. initializer registrations and completions, writes on tables not held) compared with the model in which they never ran (battery on every index, revisions, initialization state, retained watch channels, retained snapshots, behaviour of later transactions; a write transaction used as a snapshot of tables it does not hold must not see later commits through Next), plus concurrent transfer workloads under -race whose every snapshot must show the conserved total and all-or-none of each transaction's rows.",
          "The 'never ran' reference is the executable model, not a second database; graveyard retention after abort is observed through change iterators (C07 oracle), not through counts.", "5/C02"),
  "C06": ("watch-channel oracle over random histories (model decides must-close at every Commit, no-close after Abort, open at hand-out) + commit-phase monitor at the hook points inside Commit + woken-reader revision check with concurrent waiters under the race detector",
-         "Fault enumeration at the hook points commit.beforeRootLock / commit.rootLocked / commit.afterNotify (no channel closed before the root store; closed channels imply a newer visible revision) on every commit of seeded random histories with up to 40 retained channels of every *Watch variant on every index kind; plus waiter goroutines under -race with delay injection.",
+         "Fault enumeration at the hook points commit.beforeRootLock / commit.rootLocked / commit.afterNotify (no channel closed before the root store; closed channels imply a newer visible revision) on every commit of seeded random histories with up to 40 retained channels of every *Watch variant on every index kind (and a wide fan-out variant whose sweep transactions replace nodes of every radix size under retained channels); plus waiter goroutines under -race with delay injection.",
          "Spurious closes by committed transactions are allowed (the statement forbids only missed changes, early wake-ups and abort wake-ups); a commit that changes nothing (e.g. only a rejected compare-and-swap) may close channels without a newer revision; LowerBoundWatch is held to 'result changed', AllWatch to 'table changed'.", "5/C06"),
  "C08": ("graveyard monitors under virtual time: change-stream oracle for lagging iterators while the collector runs, collector paused at the hook point between scan and write transaction while the table changes, bounded-drain check on the retained count reported by the DB",
          "Fault enumeration of the scan/write window of the collector (paused at gc.afterScan in about one history in one; 1-3 adversarial steps before it resumes) plus exploration by seeded random histories with deletes/re-inserts/re-deletes and up to 4 iterators per table at arbitrary progress; bounded liveness: retained count 0 within 3 collection intervals of virtual time after all iterators drained or closed.",
